@@ -111,7 +111,7 @@ func runC13(c *Ctx) {
 				return false
 			}
 			arg, _, ok := x.lenCmpO(iff.Cond)
-			return ok && x.Cell(arg) == E
+			return ok && x.readsList(arg, E)
 		}
 		bad := false
 		for _, t := range fo.loop.exitTargets() {
